@@ -56,6 +56,10 @@ def _case(draw, focus, tier="quick"):
             "wells": st.one_of(
                 st.fixed_dictionaries({"t": st.just("slice"), "r0": st.integers(0, 7), "h": st.integers(2, 3), "c0": st.integers(0, 7), "w": st.integers(2, 3)}),
                 st.fixed_dictionaries({"t": st.just("arr2"), "w": st.lists(st.lists(st.tuples(st.integers(0, 15), st.integers(0, 23)).map(list), min_size=2, max_size=3), min_size=2, max_size=2)}),
+                # a block of full rows with the corner wells in place and the rows in between swapped or repeated
+                st.tuples(st.integers(0, 4), st.integers(0, 5), st.sampled_from([[0, 2, 1, 3], [0, 1, 1, 3], [0, 2, 2, 3], [0, 2, 1]]), st.integers(2, 3)).map(
+                    lambda x: {"t": "arr2", "w": [[[x[0] + r, x[1] + c] for c in range(x[3])] for r in x[2]]}
+                ),
             ),
             "vols": st.fixed_dictionaries({"t": st.sampled_from(["grid", "grid", "list"]), "v": st.lists(small, min_size=6, max_size=6, unique=True)}),
             "label": label_st,
